@@ -98,27 +98,31 @@ def r14_2(run, model):
 
     def features(f):
         t = {}
-        body = S.norm_ws(run.facts.text(SEP, f.body["sp"]))
+        # the function as it reads with its private helpers put back in place (a dependency loader or a match-compilation block
+        # extracted from both functions is the same code as before)
+        fb_ = model.inlined_body(f)
+        body = S.norm_ws(run.facts.text(SEP, f.body["sp"])) + "".join(S.norm_ws(run.facts.text(SEP, g.body["sp"])) for g in model.scope_fns(f) if g is not f)
         def call_args(name):
-            cs = [c for c in S.walk(f.body) if c["k"] in ("Call", "MethodCall") and S.callee_name(c) == name]
-            return [S.norm_ws(run.facts.text(SEP, a["sp"])) for a in cs[0]["args"]] if cs else None
+            cs = [c for c in S.walk(fb_) if c["k"] in ("Call", "MethodCall") and S.callee_name(c) == name]
+            return [re.sub(r"^&|\.clone\(\)$", "", S.norm_ws(run.facts.text(SEP, a["sp"]))).split(".")[-1] for a in cs[0]["args"]] if cs else None
         t["reader"] = call_args("read_source_files")
-        deps_ops = [c["method"] for c in S.walk(f.body) if c["k"] == "MethodCall" and c["recv"]["k"] == "Path" and c["recv"]["segs"] == ["deps"]]
+        load_loops = [l for l in S.find(fb_, "For") if any(True for _ in S.calls(l["body"], "load_interface_from_paths"))]
+        walked = set()
+        for l in load_loops:
+            walked |= S.idents(l["iter"])
+        deps_ops = [c["method"] for c in S.walk(fb_) if c["k"] == "MethodCall" and c["recv"]["k"] == "Path" and len(c["recv"]["segs"]) == 1 and c["recv"]["segs"][0] in walked]
         t["deps canonicalised"] = deps_ops if any(m.startswith("sort") for m in deps_ops) else None
         t["loader"] = call_args("load_interface_from_paths")
         filt = []
-        for loop in S.find(f.body, "For"):
-            if not any(True for _ in S.calls(loop["body"], "load_interface_from_paths")):
-                continue
+        for loop in load_loops:
             for iff in S.find(loop["body"], "If"):
                 acts = sorted({x["k"] for x in S.walk_no_closures(iff["then"]) if x["k"] in ("Continue", "Return", "Break")})
                 if acts:
                     filt.append((S.norm_ws(run.facts.text(SEP, iff["cond"]["sp"])), "/".join(acts)))
         t["import filter"] = ("same conditions", sorted(filt))
-        writes = sorted(re.sub(r"\.clone\(\)", "", S.norm_ws(run.facts.text(SEP, c["sp"]))) for c in S.walk(f.body) if c["k"] == "MethodCall" and c["method"] in ("insert", "entry", "extend", "or_insert_with", "or_insert")
-                        and "dep_hashes" in S.idents(c["recv"]))
-        t["dependency pins"] = ("same writes to dep_hashes", writes)
-        t["loader"] = "load_interface_from_paths(&dep,&opts.interface_paths)?" in body
+        writes = sorted(re.sub(r"\.clone\(\)", "", S.norm_ws(run.facts.text(SEP, c["sp"]))) for c in S.walk(fb_) if c["k"] == "MethodCall" and c["method"] in ("insert", "entry", "extend", "or_insert_with", "or_insert")
+                        and ("dep_hashes" in S.idents(c["recv"]) or any("interface_hash" in S.norm_ws(run.facts.text(SEP, a_["sp"])) for a_ in c["args"])))
+        t["dependency pins"] = ("same writes of dependency hashes", writes)
         m = re.search(r"typecheck_single_package\(([^;]*?)\);", body)
         # what is handed over, not how (a clone of a value and the value itself are the same argument)
         same = lambda a_: re.sub(r"\.clone\(\)|&", "", a_)
@@ -166,7 +170,7 @@ def r14_4(run, model):
     run.ob("R14.4", "pre-link / post-link prefixes not confusable", not conf, None, f"confusable pairs: {conf or 'none'}")
     for name, rel in (("build_package", SEP), ("link_cores", SEP)):
         f = model.fn(name, rel)
-        n = sum(1 for c in S.calls(f.body, "new") if c["k"] == "Call" and S.norm_ws(run.facts.text(rel, c["sp"])) == "Gensym::new()")
+        n = sum(1 for c in S.calls(model.inlined_body(f), "new") if c["k"] == "Call" and S.norm_ws(run.facts.text(rel, c["sp"])) == "Gensym::new()")
         run.ob("R14.4", f"{name}|one fresh Gensym", n == 1, site(rel, f.node["sp"]), f"{n} Gensym::new() in {name}")
 
 
@@ -542,7 +546,9 @@ def r14_18(run, model):
                      and mc["recv"]["k"] == "Path" and any(S.idents(a) & loaders for a in mc["args"])}
             fills = [mc for mc in S.walk(f.body) if mc["k"] == "MethodCall" and mc["method"] == "apply_to" and any(env[0] in S.idents(a) for a in mc["args"])
                      and mc["sp"][0] <= c["sp"][0]]
-            from_deps = [mc for mc in fills if any(a["k"] == "For" and S.idents(a["iter"]) & colls for a in par.ancestors(mc))]
+            # a helper that is handed the loaded units walks its parameter
+            unit_params = {p_["pat"].get("name") for p_ in f.params() if not p_["self"] and re.search(r"(\[|Vec<)\s*(crate::)?(artifact::)?InterfaceUnit\s*(\]|>)", p_["ty"] or "")}
+            from_deps = [mc for mc in fills if any(a["k"] == "For" and S.idents(a["iter"]) & (colls | unit_params) for a in par.ancestors(mc))]
             own = [mc for mc in fills if not any(a["k"] in ("For", "While", "Loop") for a in par.ancestors(mc))]
             ok = bool(from_deps) and bool(own)
             run.ob("R14.18", f"{f.name}|compile_file sees the dependencies' and the package's own definitions", ok, site(SEP, c["sp"]),
